@@ -61,6 +61,23 @@ def arrays_for(inputs, sd, seed=0):
     return ref.make_arrays(inputs, sd, seed)
 
 
+# hashable module-level helpers for the `via` / custom implementation options
+def via_in(x):
+    return x
+
+
+def via_out_negate(x):
+    return -x
+
+
+def impl_einsum_x3(eq, *arrays):
+    return 3.0 * np.einsum(eq, *arrays)
+
+
+def impl_tensordot_x3(a, b, axes):
+    return 3.0 * np.tensordot(a, b, axes)
+
+
 def build_pool():
     """name -> dict(kind, fn(cache)->observation).  Observations are
     JSON-able and comparable."""
@@ -124,6 +141,20 @@ def build_pool():
     add_einsum("prefer-einsum", "ab,bc,cd->ad", sd, prefer_einsum=True)
     add_einsum("sorted-inds", "ab,bc,cd->ad", sd,
                sort_contraction_indices=True)
+    # options whose effect is visible in the value: if they were missing from
+    # the cache key, a plain call and one with the option would share an entry
+    w_base = want(base_in, ("a", "d"), sd)
+    arrs0 = arrays_for(base_in, sd)
+    P["via-negating-output"] = dict(
+        fn=lambda cache: val(ctg.einsum(
+            "ab,bc,cd->ad", *arrs0, cache_expression=cache,
+            via=(via_in, via_out_negate))),
+        want=["value", w_base[1], [-v for v in w_base[2]]])
+    P["custom-implementation-x3"] = dict(
+        fn=lambda cache: val(ctg.einsum(
+            "ab,bc,cd->ad", *arrs0, cache_expression=cache,
+            implementation=(impl_einsum_x3, impl_tensordot_x3))),
+        want=["value", w_base[1], [9.0 * v for v in w_base[2]]])
     add_einsum("two-tensors", "ab,bc->ac", sd)
     add_einsum("two-tensors-T", "ab,bc->ca", sd)
 
@@ -178,6 +209,18 @@ def build_pool():
             base_in, ("a", "d"), sd, optimize=[[0, 2], [0, 1]],
             cache=cache), 3),
         want=None)
+    # the same edge path given for two networks that are equal up to index
+    # renaming: after canonicalisation the edge path means different things
+    P["path-edge-bc"] = dict(
+        fn=lambda cache: path_obs(ctg.array_contract_path(
+            base_in, ("a", "d"), sd, optimize=("b", "c"), cache=cache), 3),
+        want=["path", [[0, 1], [0, 1]]])
+    P["path-edge-bc-relabelled-net"] = dict(
+        fn=lambda cache: path_obs(ctg.array_contract_path(
+            (("a", "c"), ("c", "b"), ("b", "d")), ("a", "d"),
+            {"a": 2, "c": 3, "b": 4, "d": 5}, optimize=("b", "c"),
+            cache=cache), 3),
+        want=["path", [[1, 2], [0, 1]]])
     P["path-4-tensors"] = dict(
         fn=lambda cache: path_obs(ctg.array_contract_path(
             base_in + (("d", "e"),), ("a", "e"), {**sd, "e": 2},
